@@ -86,7 +86,7 @@ func resolveWatch(c *an.Ctx) *watchRoles {
 	// the event loop: a loop under Watcher.Run that receives from fsnotify.Watcher.Events
 	runsTask := func(f *ssa.Function) bool {
 		for g := range p.Reach([]*ssa.Function{f}, func(e an.CallEdge) bool { return wr.inW(e.Callee) }) {
-			if len(an.CallsIn(g, "(*pkg/runner.TaskRunner).Run")) > 0 {
+			if len(an.CallsIn(g, "(pkg/runner.TaskRunner).Run")) > 0 {
 				return true
 			}
 		}
@@ -97,16 +97,20 @@ func resolveWatch(c *an.Ctx) *watchRoles {
 		fns = append(fns, f)
 	}
 	sort.Slice(fns, func(i, j int) bool { return fns[i].String() < fns[j].String() })
+	// (the channel may reach a helper of the package as a parameter: what every caller passes)
+	isEvents := func(ch ssa.Value) bool {
+		return an.FieldProv(ch) == "Watcher.Events" || p.DeepFieldProvCallers(ch) == "Watcher.Events"
+	}
 	receives := func(in ssa.Instruction) bool {
 		switch x := in.(type) {
 		case *ssa.Select:
 			for _, stt := range x.States {
-				if stt.Dir == types.RecvOnly && an.FieldProv(stt.Chan) == "Watcher.Events" {
+				if stt.Dir == types.RecvOnly && isEvents(stt.Chan) {
 					return true
 				}
 			}
 		case *ssa.UnOp:
-			if x.Op == token.ARROW && an.FieldProv(x.X) == "Watcher.Events" {
+			if x.Op == token.ARROW && isEvents(x.X) {
 				return true
 			}
 		}
@@ -215,7 +219,7 @@ func resolveWatch(c *an.Ctx) *watchRoles {
 
 func checkC20(c *an.Ctx) {
 	c.Rule("C20.1", "selection table (E2/E3, helpers of internal/watch inlined): NewWatcher globs every include pattern with doublestar.Glob, tests every match against every exclude pattern with doublestar.PathMatch(pattern, match), and appends the match to the watched paths iff no exclude matched; glob and match errors are returned; the configuration's watch/exclude/events lists are handed to the matching parameters")
-	c.Rule("C20.2", "event registry (E9): the package's map[fsnotify.Op]string has a key for every exported constant of type fsnotify.Op; the default event list equals the set of its values; configured names are stored as given")
+	c.Rule("C20.2", "event registry (E9): the package's map[fsnotify.Op]string has a key for every exported constant of type fsnotify.Op; the default event list equals the set of its values; configured names are stored as given, and after construction nothing replaces or edits a watcher's subscription or its selected paths (who-may-write)")
 	c.Rule("C20.3", "filter and variables (E2 trace of the handler started by the event loop, E5): the task runs exactly once when events[table[event.Op]] holds and not at all otherwise; the run's task is a fresh copy of Watcher.task whose env is [Task.Env < {EventName: table[event.Op], EventPath: event.Name}]")
 	c.Rule("C20.4", "registration (E3): Watcher.Run adds every selected path to fsnotify and returns an Add error; a renamed path is re-added")
 	c.Rule("C20.5", "keeps serving (E3/E8): the event loop ends only when the watcher is closed or a channel is closed; each handler runs in its own goroutine registered with the events WaitGroup; no TaskRunner.Run follows a TaskRunner.Cancel on the same runner (the runner's context is created once and Run refuses a cancelled context); a mutex taken by the handler is released on every path to its exit, one taken in the event loop on every path to the next pass")
@@ -233,6 +237,7 @@ func checkC20(c *an.Ctx) {
 	}
 	selection(c, wr, "C20.1")
 	registry(c, wr, "C20.2")
+	subscriptionFixed(c, wr, "C20.2")
 	if wr.handle == nil {
 		c.Bad("C20.3", "watch:handler", wr.run.Pos(), "nothing started from the event loop under Watcher.Run runs the watcher's task: file events trigger nothing")
 	} else {
@@ -1071,7 +1076,7 @@ func handler(c *an.Ctx, wr *watchRoles, rule string) {
 		ex.Effect = func(in ssa.Instruction, st *an.State) string {
 			switch x := in.(type) {
 			case *ssa.Call:
-				if an.ShortCallee(&x.Call) == "(*pkg/runner.TaskRunner).Run" {
+				if an.ShortCallee(&x.Call) == "(pkg/runner.TaskRunner).Run" {
 					runSite, runTarget = x, st.Root(x.Call.Args[1])
 					return "Run"
 				}
@@ -1296,7 +1301,7 @@ func serving(c *an.Ctx, wr *watchRoles, rule string) {
 	// the handlers, the initial run) closes the watcher itself — whatever a run of the task ended with
 	nSelfClose := 0
 	for _, fn := range sortedFns(wr.scopeRun) {
-		for _, ci := range an.CallsIn(fn, "(*internal/watch.Watcher).Close") {
+		for _, ci := range an.CallsIn(fn, "(internal/watch.Watcher).Close") {
 			nSelfClose++
 			c.Bad(rule, an.Short(fn)+":self-close", ci.Pos(), "%s, which runs under Watcher.Run, closes the watcher: an outcome of one run of the task (a failure, a timeout, a cancelled context) ends the serving of all later events", an.Short(fn))
 		}
@@ -1478,8 +1483,8 @@ func serving(c *an.Ctx, wr *watchRoles, rule string) {
 		if !inPkgs("internal/watch", "cmd/taskctl")(fn) {
 			continue
 		}
-		cancels := an.CallsIn(fn, "(*pkg/runner.TaskRunner).Cancel")
-		runs := an.CallsIn(fn, "(*pkg/runner.TaskRunner).Run")
+		cancels := an.CallsIn(fn, "(pkg/runner.TaskRunner).Cancel")
+		runs := an.CallsIn(fn, "(pkg/runner.TaskRunner).Run")
 		for _, cc := range cancels {
 			for _, rc := range runs {
 				if an.FieldProv(cc.Common().Args[0]) != an.FieldProv(rc.Common().Args[0]) {
@@ -1618,4 +1623,42 @@ func fsnotifyOps(p *an.Prog) []int64 {
 // is round that outer loop).
 func sameOuterIteration(a, b *an.Loop) bool {
 	return !a.Blocks[b.Header] && !b.Blocks[a.Header]
+}
+
+// subscriptionFixed: what a watcher reacts to is what it was configured with. The subscribed events and the selected
+// paths are written while the watcher is built (NewWatcher and the helpers it runs) and by nobody afterwards — a
+// later "configure" step fed from state shared between watchers gives one watcher another one's subscription.
+func subscriptionFixed(c *an.Ctx, wr *watchRoles, rule string) {
+	p := c.P
+	guarded := map[string]bool{"Watcher.events": true, "Watcher.paths": true}
+	n := 0
+	for _, fn := range p.Funcs {
+		if !an.InModule(fn) || fn.Blocks == nil || wr.scopeNew[an.Outer(fn)] {
+			continue
+		}
+		an.EachInstr(fn, func(in ssa.Instruction) {
+			what := ""
+			switch x := in.(type) {
+			case *ssa.Store:
+				if fa, ok := x.Addr.(*ssa.FieldAddr); ok && guarded[an.TypeField(fa)] {
+					if fresh, copied := an.FreshBase(fa.X); fresh && !copied {
+						return
+					}
+					what = an.TypeField(fa)
+				}
+			case *ssa.MapUpdate:
+				if guarded[an.FieldProv(x.Map)] {
+					what = an.FieldProv(x.Map)
+				}
+			}
+			if what == "" {
+				return
+			}
+			n++
+			c.Bad(rule, an.Short(fn)+":write("+what+")", in.Pos(), "%s writes %s of a watcher after it was built: the watcher no longer reacts to (or watches) what its configuration says", an.Short(fn), what)
+		})
+	}
+	if n == 0 {
+		c.OK(rule, "internal/watch:subscription-writers", token.NoPos, "only the construction of a watcher writes its subscribed events and selected paths")
+	}
 }
